@@ -4,6 +4,12 @@ _BASE_NOTE = ("Trusted: CrossHair's symbolic models of str/int/list and z3 (for 
               "bounds per condition as written to evidence (pre: lines). Nothing is claimed outside the bounds.")
 
 CLAIMS = {
+    "C11": {
+        "technique": "bounded symbolic execution (CrossHair/z3) over generator choice variables: build_schema on generated type-system documents vs the generator's declared-content record; labelled invalid documents",
+        "text": "Content: descriptions, deprecations, 12 default kinds, 4 recursion patterns, schema definition, 8 presence masks, mutation. Layout: members of any one type split over 1-2 extend blocks x 3 definition orders x extension placement x ignore_extensions x additional_types. "
+                "The built schema read back through public attributes equals the declared record exactly (nothing missing, nothing extra, extension members after base members). 33 labelled invalid documents raise only SDLError/SchemaError.",
+        "note": _BASE_NOTE + " SDL outside the generator family is not covered.",
+    },
     "C10": {
         "technique": "bounded symbolic execution (CrossHair/z3): truncated requests and failure placements through the real entry points against a response-format checker; symbolic index_to_loc; z3 regex equivalence for the line separator",
         "regex": True,
